@@ -434,3 +434,74 @@ def family_generated(kind, rng=None, via="paramiko"):
             fam.add("private-fileobj-" + fmt, cls.from_private_key(io.StringIO(text)))
     public_objects(fam, cls)
     return fam
+
+
+def family_from_private(priv, label):
+    """Family for a given cryptography private key: the paramiko object built from the numbers
+    (RSAKey(key=) / ECDSAKey(vals=)), objects loaded from PEM / OpenSSH-format text, and the public objects."""
+    import paramiko
+
+    kind = kind_of(priv.public_key())
+    cls = key_class(kind)
+    fam = Family(label, priv.public_key())
+    if kind == "rsa":
+        fam.add("built-from-numbers", paramiko.RSAKey(key=priv))
+    elif kind.startswith("ecdsa"):
+        fam.add("built-from-numbers", paramiko.ECDSAKey(vals=(priv, priv.public_key())))
+    for fmt in (["openssh"] if kind == "ed25519" else ["pem", "openssh"]):
+        fam.add("private-fileobj-" + fmt, cls.from_private_key(io.StringIO(serialize_private(priv, fmt).decode())))
+    public_objects(fam, cls)
+    return fam
+
+
+DATA = os.path.join(os.path.dirname(os.path.abspath(__file__)), "data")
+
+
+def short_coordinate_keys():
+    """[(label, category, cryptography private key)] from vf/data/short_coordinate_keys.json, each re-checked:
+    ECDSA keys whose x and/or y has leading zero byte(s) at the fixed width, Ed25519 public keys starting 0x00."""
+    import json
+
+    with open(os.path.join(DATA, "short_coordinate_keys.json")) as f:
+        data = json.load(f)
+    out = []
+    for bits_s, cats in sorted(data["ecdsa"].items()):
+        bits = int(bits_s)
+        nb = (bits + 7) // 8
+        for cat, scalars in sorted(cats.items()):
+            for d in scalars:
+                priv = ec.derive_private_key(d, CURVES[bits]["cls"]())
+                n = priv.public_key().public_numbers()
+                zx = nb - (n.x.bit_length() + 7) // 8
+                zy = nb - (n.y.bit_length() + 7) // 8
+                ok = dict(x=zx >= 1 and zy == 0, y=zy >= 1 and zx == 0, both=zx >= 1 and zy >= 1, x2=zx >= 2, y2=zy >= 2)[cat]
+                if not ok:
+                    raise AssertionError("cached scalar %d on P-%d is not of category %s" % (d, bits, cat))
+                out.append(("short-coordinate:ecdsa%d:%s:d=%d" % (bits, cat, d), "ecdsa%d:%s" % (bits, cat), priv))
+    for cat, idxs in sorted(data["ed25519"].items()):
+        for i in idxs:
+            seed = hashlib.sha256(b"vf-ed25519-%d" % i).digest()
+            priv = ed25519.Ed25519PrivateKey.from_private_bytes(seed)
+            raw = priv.public_key().public_bytes(serialization.Encoding.Raw, serialization.PublicFormat.Raw)
+            if raw[: 2 if "two" in cat else 1].strip(b"\x00"):
+                raise AssertionError("cached Ed25519 seed %d is not of category %s" % (i, cat))
+            out.append(("short-coordinate:ed25519:%s:i=%d" % (cat, i), "ed25519:" + cat, priv))
+    return out
+
+
+def rsa_with_exponent(e, bits=1024, tries=40):
+    """RSA private key (cryptography) with a chosen public exponent, e.g. one whose mpint needs a sign byte
+    (0x81, 0x8001, 0x800001): p, q are taken from a freshly generated key, d is recomputed."""
+    import math
+
+    for _ in range(tries):
+        base = rsa.generate_private_key(65537, bits).private_numbers()
+        p, q = base.p, base.q
+        lam = (p - 1) * (q - 1) // math.gcd(p - 1, q - 1)
+        if math.gcd(e, lam) != 1:
+            continue
+        d = pow(e, -1, lam)
+        nums = rsa.RSAPrivateNumbers(p=p, q=q, d=d, dmp1=d % (p - 1), dmq1=d % (q - 1), iqmp=pow(q, -1, p),
+                                     public_numbers=rsa.RSAPublicNumbers(e, p * q))
+        return nums.private_key()
+    raise ValueError("no RSA key with e=%d found" % e)
